@@ -35,6 +35,9 @@ def dispatch(prop, tier):
     if prop == 'C11':
         from harness.checks import copy
         return copy.run_c11(tier)
+    if prop in ('C16', 'C20'):
+        from harness.checks import files
+        return getattr(files, 'run_' + prop.lower())(tier)
     raise core.Infra('no check registered for %s' % prop)
 
 
